@@ -277,7 +277,44 @@ def rule_lifecycle(ck):
             ck.ob("wmc.writers", f"{k}/enumerated-writer", False, f"{o} writes to the DAP transport directly", f.loc(c.bb))
 
 
+def rule_no_panic(ck):
+    prog = ck.prog
+    ck.rule("wmc.request_data_unwrap", "in the DAP session handlers no value derived from the request (arguments of any shape) is unwrapped / expected: a missing or ill-typed argument must become an error response, not a panic of the adapter (an unwrap guarded by a dominating is_empty/is_some test on the same value is accepted)")
+    n = 0
+    hs = 0
+    for p, f in sorted(prog.fns.items()):
+        if f.kind == "promoted" or not f.file.startswith("src/dap/yadap/session"):
+            continue
+        reqs = [l for l in range(1, f.argc + 1) if "DapRequest" in f.local_ty(l)]
+        if not reqs:
+            continue
+        hs += 1
+        t = taint_from(f, set(reqs))
+        for c in f.calls():
+            if c.exp or not re.search(r"(Option::<T>|Result::<T, E>)::(unwrap|expect)$", c.name):
+                continue
+            pl = op_place(c.args[0])
+            if not (pl and pl[0] in t):
+                continue
+            n += 1
+            ck.saw(f)
+            guarded = False
+            for b in f.dominators().get(c.bb, ()):
+                tt = f.blocks[b]["term"]
+                if tt["t"] == "switch" and re.search(r"is_empty\(|is_some\(|is_ok\(|is_none\(|is_err\(", expr_str(expr_of(f, tt["discr"]), 5)):
+                    guarded = True
+            ck.ob("wmc.request_data_unwrap", f"{short(owner_fn(f.path))}/{c.name.split('::')[-1]}#{_ordinal(f, c)}", guarded, f"{c.name.split('::')[-2]}::{c.name.split('::')[-1]} on {expr_str(expr_of(f, c.args[0]), 5)[:90]} (request-derived)", f.loc(c.bb), what=f"{short(owner_fn(f.path))} panics on request data")
+    ck.floor("wmc.request_data_unwrap", "handlers taking the request", hs, 40)
+    ck.ob("wmc.request_data_unwrap", "sites-examined", True, f"{n} unwrap/expect sites on request-derived values", "")
+
+
+def _ordinal(f, c):
+    same = [x for x in f.calls() if x.name == c.name]
+    return same.index(c) if c in same else 0
+
+
 def run(ck):
+    rule_no_panic(ck)
     rule_seq(ck)
     rule_resp(ck)
     rule_dispatch(ck)
